@@ -211,9 +211,9 @@ static int32_t wr_index(struct jls_core_fsr_s * self, uint8_t level) {
                              p_start, len);
 }
 
-static int32_t wr_summary(struct jls_core_fsr_s * self, uint8_t level) {
+static int32_t wr_summary(struct jls_core_fsr_s * self, uint8_t level, bool closing) {
     struct jls_core_fsr_level_s * dst = self->level[level];
-    if (!dst->summary->header.entry_count) {
+    if (!dst->index->header.entry_count) {
         return 0;
     }
     int64_t pos_next = jls_raw_chunk_tell(self->parent->parent->raw);
@@ -224,7 +224,10 @@ static int32_t wr_summary(struct jls_core_fsr_s * self, uint8_t level) {
     uint32_t payload_len = (uint32_t) (p_end - p_start);
     ROE(jls_core_wr_summary(self->parent->parent, self->parent->signal_def.signal_id, JLS_TRACK_TYPE_FSR, level,
                             p_start, payload_len));
-    ROE(jls_core_fsr_summaryN(self, level + 1, pos_next));
+    if (!closing || (((level + 1) < JLS_SUMMARY_LEVEL_COUNT) && self->level[level + 1])) {
+        // on close, only feed levels that already exist: this level may be the top.
+        ROE(jls_core_fsr_summaryN(self, level + 1, pos_next));
+    }
 
     dst->index->header.entry_count = 0;
     dst->summary->header.entry_count = 0;
@@ -236,7 +239,7 @@ static int32_t summary_close(struct jls_core_fsr_s * self, uint8_t level) {
     if (!dst) {
         return 0;
     }
-    int32_t rc = wr_summary(self, level);
+    int32_t rc = wr_summary(self, level, true);
     summary_free(self, level);
     return rc;
 }
@@ -372,7 +375,7 @@ int32_t jls_core_fsr_summaryN(struct jls_core_fsr_s * self, uint8_t level, int64
     }
 
     if (dst->summary->header.entry_count >= dst->summary_entries) {
-        ROE(wr_summary(self, level));
+        ROE(wr_summary(self, level, false));
     }
     return 0;
 }
@@ -449,7 +452,7 @@ int32_t jls_core_fsr_summary1(struct jls_core_fsr_s * self, int64_t pos) {
     }
 
     if (dst->summary->header.entry_count >= dst->summary_entries) {
-        ROE(wr_summary(self, 1));
+        ROE(wr_summary(self, 1, false));
     }
     return 0;
 }
